@@ -25,7 +25,13 @@ func jf(family, expr, data, impl, model, why string) Diff {
 // ---------------------------------------------------------------------------------------------
 // deep snapshots that also see the spare capacity of slices
 
-func snapshot(v any, sb *strings.Builder) {
+func snapshot(v any, sb *strings.Builder) { snapshotD(v, sb, 0) }
+
+func snapshotD(v any, sb *strings.Builder, depth int) {
+	if depth > maxDepth {
+		sb.WriteString("GO<too-deep-or-cyclic>")
+		return
+	}
 	switch v := v.(type) {
 	case []any:
 		if v == nil {
@@ -38,7 +44,7 @@ func snapshot(v any, sb *strings.Builder) {
 			if i > 0 {
 				sb.WriteString(",")
 			}
-			snapshot(x, sb)
+			snapshotD(x, sb, depth+1)
 		}
 		sb.WriteString("]")
 	case map[string]any:
@@ -50,7 +56,7 @@ func snapshot(v any, sb *strings.Builder) {
 		sb.WriteString("{")
 		for _, k := range keys {
 			fmt.Fprintf(sb, "%q:", k)
-			snapshot(v[k], sb)
+			snapshotD(v[k], sb, depth+1)
 			sb.WriteString(",")
 		}
 		sb.WriteString("}")
@@ -338,7 +344,12 @@ func judgeDeterminism(c *GenCtx, ops []Op, model map[int]string) []Diff {
 // ---------------------------------------------------------------------------------------------
 // C18
 
-func plainJSON(v any) string {
+func plainJSON(v any) string { return plainJSOND(v, 0) }
+
+func plainJSOND(v any, depth int) string {
+	if depth > maxDepth {
+		return "a value nested deeper than any input (cyclic?)"
+	}
 	switch v := v.(type) {
 	case nil, bool, string, json.Number, float64, int64, decimal128.Decimal:
 		return ""
@@ -347,7 +358,7 @@ func plainJSON(v any) string {
 			return "nil []any"
 		}
 		for _, x := range v {
-			if s := plainJSON(x); s != "" {
+			if s := plainJSOND(x, depth+1); s != "" {
 				return s
 			}
 		}
@@ -357,7 +368,7 @@ func plainJSON(v any) string {
 			return "nil map"
 		}
 		for _, x := range v {
-			if s := plainJSON(x); s != "" {
+			if s := plainJSOND(x, depth+1); s != "" {
 				return s
 			}
 		}
@@ -493,7 +504,13 @@ func numValue(v any) (*big.Rat, bool) {
 	return nil, false
 }
 
-func valueCanon(v any, sb *strings.Builder) {
+func valueCanon(v any, sb *strings.Builder) { valueCanonD(v, sb, 0) }
+
+func valueCanonD(v any, sb *strings.Builder, depth int) {
+	if depth > maxDepth {
+		sb.WriteString("GO<too-deep-or-cyclic>")
+		return
+	}
 	if r, ok := numValue(v); ok {
 		sb.WriteString("num:" + r.RatString())
 		return
@@ -505,7 +522,7 @@ func valueCanon(v any, sb *strings.Builder) {
 			if i > 0 {
 				sb.WriteString(",")
 			}
-			valueCanon(x, sb)
+			valueCanonD(x, sb, depth+1)
 		}
 		sb.WriteString("]")
 	case map[string]any:
@@ -517,7 +534,7 @@ func valueCanon(v any, sb *strings.Builder) {
 		sb.WriteString("{")
 		for _, k := range keys {
 			fmt.Fprintf(sb, "%q:", k)
-			valueCanon(v[k], sb)
+			valueCanonD(v[k], sb, depth+1)
 			sb.WriteString(",")
 		}
 		sb.WriteString("}")
